@@ -52,7 +52,7 @@ meta = {
     "rlimit_quick": 30,
     "rlimit_thorough": 120,
     "witness": "c05_witness",
-    "design_ref": "DESIGN.md §6 (C05 was not_applicable as stated; this is an explicitly PARTIAL unit)",
+    "design_ref": "DESIGN.md §5 C05 (partial unit)",
     "watch_files": ["lib/translator/mips/semantics.rs", "lib/translator/ppc/semantics.rs", "lib/il/block.rs", "lib/il/control_flow_graph.rs", "lib/il/intrinsic.rs",
                     "lib/translator/block_translation_result.rs", "lib/translator/options.rs"],
     "witness_bound": T["witness_bound"],
